@@ -388,6 +388,17 @@ def expected_bytes(case, out, facts):
     return b"".join(x + b"\n" for x in res), owners
 
 
+_LONG = {c: [k for k, sp in enumerate(sps) if len(sp_line(sp)) > 10000] for c, sps in SPELLINGS.items()}
+
+
+def pick_spelling(rng, c):
+    """Random spelling index; the 60-70 KB spellings are taken 10x less often (they dominate the I/O volume)."""
+    k = rng.randrange(len(SPELLINGS[c]))
+    if k in _LONG[c] and len(_LONG[c]) < len(SPELLINGS[c]) and rng.random() < 0.9:
+        k = rng.choice([i for i in range(len(SPELLINGS[c])) if i not in _LONG[c]])
+    return k
+
+
 def build_cases(ctx, rng):
     classes = sorted(SPELLINGS)
     variants = [(inst, fn) for inst in (False, True) for fn in ("app", "other", "space")]
@@ -413,7 +424,7 @@ def build_cases(ctx, rng):
         for j, c2 in enumerate(classes):
             vs = variants if not ctx.quick else [variants[(i * 7 + j + ctx.seed) % 6]]
             for inst, fn in vs:
-                add([c1, c2], [rng.randrange(len(SPELLINGS[c1])), rng.randrange(len(SPELLINGS[c2]))], inst, fn,
+                add([c1, c2], [pick_spelling(rng, c1), pick_spelling(rng, c2)], inst, fn,
                     rng.choice(FNAMES[fn]), rng.choice([b"\n", b"\n", b"\r\n"]), rng.random() < 0.8)
     # 3. all ordered triples (thorough), rotating variant
     if not ctx.quick:
@@ -422,7 +433,7 @@ def build_cases(ctx, rng):
                 for k, c3 in enumerate(classes):
                     inst, fn = variants[(i + 3 * j + 5 * k + ctx.seed) % 6]
                     ls = [c1, c2, c3]
-                    add(ls, [rng.randrange(len(SPELLINGS[c])) for c in ls], inst, fn, rng.choice(FNAMES[fn]),
+                    add(ls, [pick_spelling(rng, c) for c in ls], inst, fn, rng.choice(FNAMES[fn]),
                         rng.choice([b"\n", b"\n", b"\r\n"]), rng.random() < 0.8)
     # 4. random longer files (beyond the exhaustive bound), realistic skeleton first
     for _ in range(ctx.pick(1500, 20000)):
@@ -431,7 +442,7 @@ def build_cases(ctx, rng):
         if rng.random() < 0.6:
             ls[0] = "HdrEntry"
         inst, fn = rng.choice(variants)
-        add(ls, [rng.randrange(len(SPELLINGS[c])) for c in ls], inst, fn, rng.choice(FNAMES[fn]),
+        add(ls, [pick_spelling(rng, c) for c in ls], inst, fn, rng.choice(FNAMES[fn]),
             rng.choice([b"\n", b"\n", b"\r\n"]), rng.random() < 0.8)
     return cases, n_single
 
